@@ -9,6 +9,8 @@ def run(ctx):
         "PARTIAL: the theorems cover the commit logic (sort before write, apply encoded results in key order) and a small executor with an "
         "explicit nondeterminism oracle; that Go map iteration and the scheduler are the only sources of nondeterminism of the real runtime is "
         "only observed (repeated runs in this process and in fresh OS processes under GOMAXPROCS in {1,2,4,16,...} and taskset CPU sets)",
+        "prefix experiment: outcome of a program on a fixed ledger in a fresh runtime/Environment vs. in Environment objects reused after varied "
+        "(mostly failing-at-depth) prefixes must be identical, incl. metering; both engines, script and base environments",
         "atree FastCommit (parallel encode, apply in sorted slab-id order) and atree.EncodeSlab are oracles of the model (deterministic function enc)",
         "the source-level tie (no new range-over-map statements in interpreter/, runtime/, sema/, bbq/, stdlib/, common/, encoding/ ...) re-implements "
         "the criterion of the repo's tools/maprange analyzer with go/packages and diffs against corpus/C33/maprange_expected.txt",
